@@ -138,3 +138,12 @@ package stanza
 //@   requires iq != nil
 //@   ensures [C06.makeerror] r == iq && iq.Type == "error" && iq.From == old(iq.To) && iq.To == old(iq.From) && iq.Id == old(iq.Id) && iq.Error != nil && fresh(iq.Error) && iq.Error.Reason == xerror.Reason && iq.Error.Type == xerror.Type && iq.Error.Code == xerror.Code
 //@   assigns iq.Type, iq.From, iq.To, iq.Error
+
+// ---------------------------------------------------------------------------
+// C02: stream parsing (interface used by the connection-level properties)
+//@ event PacketRead(pk Iface)
+//@ func stanza.NextPacket(p) (pk, err)
+//@   requires p != nil
+//@   emit PacketRead(pk) when err == nil
+//@   ensures [C02.total.result] (err == nil) == (pk != nil)
+//@   bounded
